@@ -104,6 +104,28 @@ func VerifH_C09_CKKSBinaryOpsAliasing() {
 			}
 		}
 	}
+	// operands of unequal degree and unequal scales (integer ratio, either way round): a fresh output and the output
+	// aliased to the degree-2 operand hold the same result
+	for _, op := range vBinOps()[:2] {
+		for si, sc := range [][2]float64{{256, 65536}, {65536, 256}} {
+			level := params.MaxLevel()
+			tag := op.name + "-degree2-and-degree1-operands-scales-" + vItoa(si)
+			a2 := vAtomCiphertext(c, 2, level, "p", sc[0])
+			b := vAtomCiphertext(c, 1, level, "q", sc[1])
+			ref := NewCiphertext(params, 2, level)
+			vAssert(op.run(eval, a2, b, ref) == nil, tag+"-no-error")
+			inpl := a2.CopyNew()
+			if op.run(eval, inpl, b, inpl) == nil {
+				vCtEq(r, inpl, ref, tag+"-output-aliased-to-first-operand-same-result")
+			}
+			ref2 := NewCiphertext(params, 2, level)
+			vAssert(op.run(eval, b, a2, ref2) == nil, tag+"-swapped-no-error")
+			inpl2 := a2.CopyNew()
+			if op.run(eval, b, inpl2, inpl2) == nil {
+				vCtEq(r, inpl2, ref2, tag+"-output-aliased-to-second-operand-same-result")
+			}
+		}
+	}
 	vCover("C09-ckks-binary-reached")
 }
 
